@@ -224,6 +224,14 @@ pub fn read_aseprite<R: Read>(input: R) -> Result<AsepriteFile> {
 
     let mut parse_info = ParseInfo::new(num_frames, default_frame_time);
 
+    #[cfg(asefile_verif)]
+    crate::verif::emit(|| {
+        format!(
+            "{{\"ev\":\"hdr\",\"nframes\":{},\"w\":{},\"h\":{},\"depth\":{},\"tidx\":{},\"pixw\":{},\"pixh\":{}}}",
+            num_frames, width, height, color_depth, transparent_color_index, pixel_width, pixel_height
+        )
+    });
+
     let pixel_format = parse_pixel_format(color_depth, transparent_color_index)?;
 
     for frame_id in 0..num_frames {
@@ -280,6 +288,14 @@ fn parse_frame<R: Read>(
     let new_num_chunks = reader.dword()?;
 
     parse_info.frame_times[frame_id as usize] = frame_duration_ms;
+
+    #[cfg(asefile_verif)]
+    crate::verif::emit(|| {
+        format!(
+            "{{\"ev\":\"frame\",\"f\":{},\"nbytes\":\"{}\",\"old\":{},\"new\":\"{}\",\"dur\":{}}}",
+            frame_id, num_bytes, old_num_chunks, new_num_chunks, frame_duration_ms
+        )
+    });
 
     let num_chunks = if new_num_chunks == 0 {
         old_num_chunks as u32
@@ -360,9 +376,41 @@ fn parse_frame<R: Read>(
                 debug!("Ignoring unsupported chunk type: {:?}", chunk_type);
             }
         }
+        #[cfg(asefile_verif)]
+        crate::verif::emit(|| parse_info.verif_chunk_event(frame_id, &chunk_type, data.len()));
     }
 
     Ok(())
+}
+
+#[cfg(asefile_verif)]
+impl ParseInfo {
+    // One event per chunk, taken after the chunk has been applied: the chunk
+    // kind, the resulting user data context and cheap scalar state.
+    fn verif_chunk_event(&self, frame_id: u16, chunk_type: &ChunkType, len: usize) -> String {
+        let ctx = match self.user_data_context {
+            None => "[]".to_string(),
+            Some(UserDataContext::CelId(id)) => format!("[\"cel\",{},{}]", id.frame, id.layer),
+            Some(UserDataContext::LayerIndex(i)) => format!("[\"layer\",{}]", i),
+            Some(UserDataContext::OldPalette) => "[\"sprite\"]".to_string(),
+            Some(UserDataContext::TagIndex(i)) => format!("[\"tag\",{}]", i),
+            Some(UserDataContext::SliceIndex(i)) => format!("[\"slice\",{}]", i),
+        };
+        format!(
+            "{{\"ev\":\"chunk\",\"f\":{},\"kind\":\"{:?}\",\"len\":{},\"ctx\":{},\"nl\":{},\"ns\":{},\"nt\":{},\"npal\":{},\"nts\":{},\"nef\":{},\"sud\":{}}}",
+            frame_id,
+            chunk_type,
+            len,
+            ctx,
+            self.layers.len(),
+            self.slices.len(),
+            self.tags.as_ref().map_or(-1, |t| t.len() as i64),
+            self.palette.as_ref().map_or(-1, |p| p.num_colors() as i64),
+            self.tilesets.len(),
+            self.external_files.map().len(),
+            self.sprite_user_data.is_some()
+        )
+    }
 }
 
 #[derive(Clone, Copy)]
